@@ -1,6 +1,7 @@
 import PwVerif.Model.Cache
 import PwVerif.Model.CacheTree
 import PwVerif.Model.CacheForest
+import PwVerif.Model.CacheFetchTree
 import PwVerif.Model.Proto
 open PwVerif.Cache PwVerif.Proto
 open PwVerif.CacheTree (T Src K KidK KCfg Sem St)
@@ -28,10 +29,11 @@ structure DSt where
   cur : St String
   prop : St String
   forest : Root String
+  fetch : PwVerif.CacheFetchTree.St String
 
 def St0 : St String := { vals := [], kids := [], outs := [], cache := none }
 def DSt.init : DSt :=
-  { beh := [], rc := N.init, ru := N.init, sc := N.init, su := N.init, nc := N.init, nu := N.init, hc := N.init, hu := N.init, cur := St0, prop := St0, forest := { kids := [], cache := none } }
+  { beh := [], rc := N.init, ru := N.init, sc := N.init, su := N.init, nc := N.init, nu := N.init, hc := N.init, hu := N.init, cur := St0, prop := St0, forest := { kids := [], cache := none }, fetch := { body := [], cache := none } }
 
 def showR : R → String
   | .ret none => "ret:ND"
@@ -174,6 +176,44 @@ def treeRun (s : DSt) : DSt × List String :=
   let (s', l3) := forestRun s
   ({ s' with cur, prop }, l1 ++ l2 ++ l3)
 
+/-! ### values held by the channels at every depth (`Model/CacheFetchTree.lean`): `ftleaf | ftcomp | ftassign | ftcut | ftrun` -/
+section FetchTree
+open PwVerif.CacheFetchTree (In Nd)
+
+/-- `v:<term>` free, `c<sib>:<term>` connected, `l<i>:<term>` linked — each with the value the channel holds -/
+def parseIn (w : String) : Option (In String) :=
+  match w.splitOn ":" with
+  | [hd, val] =>
+    let rest := (hd.drop 1).toString
+    match hd.take 1 |>.toString with
+    | "v" => if rest.isEmpty then some (.free val) else none
+    | "c" => rest.toNat?.map (fun n => .conn n val)
+    | "l" => rest.toNat?.map (fun n => .link n val)
+    | _ => none
+  | _ => none
+
+def showIn : In String → String
+  | .free v => v
+  | .conn _ h => h
+  | .link _ h => h
+
+partial def showNds : List (Nd String) → String
+  | ks => " ".intercalate (ks.map fun
+    | .leaf l _ ins _ => s!"{l}[{"|".intercalate (ins.map showIn)}]"
+    | .comp l _ ins kids _ => s!"{l}[{"|".intercalate (ins.map showIn)}]" ++ "{" ++ showNds kids ++ "}")
+
+def ftEdit (s : DSt) (path : List Nat) (g : List (Nd String) → List (Nd String)) : DSt :=
+  { s with fetch := { s.fetch with body := PwVerif.CacheFetchTree.atPath g path s.fetch.body } }
+
+def ftRun (s : DSt) : DSt × List String :=
+  let hit := match s.fetch.cache with
+    | none => false
+    | some snap => PwVerif.CacheFetchTree.sameLB snap s.fetch.body
+  let r := PwVerif.CacheFetchTree.step strSem.F strSem.nd true true true s.fetch .run
+  ({ s with fetch := r.1 }, [s!"FT hit={hit} c={showOuts (r.2.getD [])} st={showNds r.1.body}"])
+
+end FetchTree
+
 def step' (s : DSt) (ws : List String) : DSt × List String :=
   match ws with
   | "beh" :: vs => match vs.mapM parseBeh with
@@ -233,6 +273,27 @@ def step' (s : DSt) (ws : List String) : DSt × List String :=
       | _ => (s, ["bad-op"])
     | _, _, _ => (s, ["bad-op"])
   | ["trun"] => treeRun s
+  | "ftleaf" :: p :: l :: c :: ins =>
+    match parsePath p, l.toNat?, c.toNat?, ins.mapM parseIn with
+    | some p, some l, some c, some ins => (ftEdit s p (fun ks => ks ++ [.leaf l c ins strSem.nd]), [])
+    | _, _, _, _ => (s, ["bad-op"])
+  | "ftcomp" :: p :: l :: r :: ins =>
+    match parsePath p, l.toNat?, r.toNat?, ins.mapM parseIn with
+    | some p, some l, some r, some ins => (ftEdit s p (fun ks => ks ++ [.comp l r ins [] strSem.nd]), [])
+    | _, _, _, _ => (s, ["bad-op"])
+  | ["ftassign", p, l, i, v] =>
+    match parsePath p, l.toNat?, i.toNat? with
+    | some p, some l, some i =>
+      (ftEdit s p (PwVerif.CacheFetchTree.mapNd l (PwVerif.CacheFetchTree.Nd.mapIns
+        (PwVerif.CacheFetchTree.setAt i (PwVerif.CacheFetchTree.assignIn v)))), [])
+    | _, _, _ => (s, ["bad-op"])
+  | ["ftcut", p, l, i] =>
+    match parsePath p, l.toNat?, i.toNat? with
+    | some p, some l, some i =>
+      (ftEdit s p (PwVerif.CacheFetchTree.mapNd l (PwVerif.CacheFetchTree.Nd.mapIns
+        (PwVerif.CacheFetchTree.setAt i PwVerif.CacheFetchTree.cutIn))), [])
+    | _, _, _ => (s, ["bad-op"])
+  | ["ftrun"] => ftRun s
   | _ => (s, ["bad-op"])
 
 def main : IO Unit := PwVerif.Proto.run DSt.init step'
